@@ -702,6 +702,73 @@ func TestVerif_C03_ManyOutstanding(t *testing.T) {
 			m.Classf("N:%d/fam:%d/all-matched", verifBucket(N), fam)
 		})
 	})
+	// a connection that lives long: 70 000 request/response exchanges one after the other (ids 1, 2, 3, ... as clients
+	// count them): the table must neither fill up nor keep answering for ids long consumed
+	m.Guard("rtmp.sequential", nil, func() {
+		r := m.Rand("sequential", 0)
+		ca, cb, _, _ := vnet.Pair(vnet.SegRandom(r.Split(), 4096), vnet.SegWhole())
+		pa, pb := NewProtocol(ca), NewProtocol(cb)
+		rep := map[string]interface{}{"mode": "sequential"}
+		for k := 1; k <= 70000; k++ {
+			tid := amf0.Number(float64(k))
+			var req Packet
+			if k == 1 {
+				p := NewConnectAppPacket()
+				p.TransactionID = tid
+				req = p
+			} else {
+				p := NewCreateStreamPacket()
+				p.TransactionID = tid
+				req = p
+			}
+			if err := pa.WritePacket(req, 0); err != nil {
+				m.Violationf("c03:write-error:sequential", rep, "request %d: %v", k, err)
+				return
+			}
+			if msg, err := pb.ReadMessage(); err != nil {
+				m.Violationf("c03:read-error:sequential", rep, "request %d: %v", k, err)
+				return
+			} else if _, err := pb.DecodeMessage(msg); err != nil {
+				m.Violationf("c03:decode-error:sequential", rep, "request %d: %v", k, err)
+				return
+			}
+			var resp Packet
+			wantT := verifTCreateRes
+			if k == 1 {
+				resp, wantT = NewConnectAppResPacket(tid), verifTConnRes
+			} else {
+				p := NewCreateStreamResPacket(tid)
+				p.StreamID = amf0.Number(k)
+				resp = p
+			}
+			pb.WritePacket(resp, 0)
+			msg, err := pa.ReadMessage()
+			if err != nil {
+				m.Violationf("c03:read-error:response", rep, "%v", err)
+				return
+			}
+			pkt, err := pa.DecodeMessage(msg)
+			if err != nil || reflect.TypeOf(pkt) != wantT {
+				m.Violationf("c03:result-not-matched:sequential", rep, "exchange %d of a long connection: _result for tid=%d: %T, %v", k, k, pkt, err)
+				return
+			}
+			m.Case()
+			m.Count("result_matched", 1)
+			if k%5000 == 0 {
+				// an answer for an id consumed long ago must still be refused
+				old := NewCreateStreamResPacket(amf0.Number(float64(k - 4000)))
+				pb.WritePacket(old, 0)
+				if msg, err := pa.ReadMessage(); err == nil {
+					if p2, err := pa.DecodeMessage(msg); err == nil {
+						m.Violationf("c03:result-matched-twice:sequential", rep, "after %d exchanges a second _result for tid=%d decoded as %T", k, k-4000, p2)
+						return
+					}
+				}
+				m.Classf("sequential/%dk", k/1000)
+			}
+		}
+		m.Count("sequential_exchanges_on_one_connection", 70000)
+	})
 }
 
 // ---- typed waits ---------------------------------------------------------------------------
